@@ -13,13 +13,13 @@ PID = 'C17'
 LEVEL = 'proof'
 LEAN_TARGETS = ['Swiftness.Props.C17']
 TRANSLATOR_PARTS = ('consts', 'ast')
-DRV_LAYOUTS = ['recursive', 'dynamic']
+DRV_LAYOUTS = ['dex', 'recursive', 'recursive_with_poseidon', 'small', 'starknet', 'starknet_with_keccak', 'dynamic']
 BUILDS = {'quick': [('k160', 'stone5', 'full', 'all_layouts', 'parser')], 'thorough': [('k160', 'stone5', 'full', 'all_layouts', 'parser')]}
 EXTREME = [0, 1, 2, 48, 49, 1 << 16, 1 << 20, 1 << 32, 1 << 40, (1 << 64) - 1, 1 << 64, 1 << 128, P - 2, P - 1]
 RULE = ('bases: fixture + shipped recursive proof (thorough: + 5 other static layouts and the dynamic proof). every numeric field of the config '
         'and public input (and the nonce) set to each of {0,1,2,48,49,2^16,2^20,2^32,2^40,2^64-1,2^64,2^128,P-2,P-1}, alone, as an alias cur+k*2^w (w=32,64,128) of the honest value, and together with a '
         'consistent re-declaration of the dependent fields (n_queries with security incl. k*2^w+q, blow-up with heights, trace size with FRI, layer count '
-        'with vectors, dynamic parameters); dynamic layout: validate_public_input of the shipped dynamic public input with every row ratio / switch / column count '
+        'with vectors, friendly-layer count in every table config, dynamic parameters); dynamic layout: validate_public_input of the shipped dynamic public input with every row ratio / switch / column count '
         '(and a sample of the other parameters) set to {0,1,2,T/2,T,2T,2^40,2^63,2^64-1}, also with the builtin switched on. each case: model agreement + isolated child process of the real verifier (wall limit 20 s per '
         'chunk of 25, address space 6 GiB); bound: time <= 40 x honest + 1 s, peak RSS <= honest + 512 MiB. non-trivial = all mutants.')
 ASSUMPTIONS = ['wall time and RSS are measured on this machine in a child process; they are a test of the runtime behaviour the model cannot exhibit']
@@ -90,6 +90,13 @@ def cases(rng, tier, feats, drv_ok):
             out.append({'line': b.line(v), 'kind': 'redeclared:n_layers', 'name': b.name, 'pos': hex(nl)})
         for lns in [79, 80, 1 << 16, P - 1]:
             out.append({'line': b.line(PL.setp(b.v, I['pi.log_n_steps'], (), lns)), 'kind': 'redeclared:log_n_steps', 'name': b.name, 'pos': hex(lns)})
+        # the friendly-layer count is repeated in every table / vector config and (stone5) not bound by the transcript: re-declared
+        # consistently everywhere, any value >= the tallest tree is an HONEST description of the same proof
+        for nf in [1 << 10, 1 << 20, 1 << 30, 1 << 40, 1 << 60, (1 << 64) - 1, 1 << 64, 1 << 128, P - 1]:
+            v = PL.setp(b.v, I['cfg.n_verifier_friendly'], (), nf)
+            for key in ('cfg.traces.original', 'cfg.traces.interaction', 'cfg.composition', 'cfg.fri.inner_layers'):
+                v = PL.setp(v, I[key], (), [[r[0], r[1], nf] for r in b.v[I[key]]])
+            out.append({'line': b.line(v), 'kind': 'redeclared:n_friendly', 'name': b.name, 'pos': hex(nf)})
         for last in [15, 16, 64, P - 1]:
             out.append({'line': b.line(PL.setp(b.v, I['cfg.fri.log_last_layer_degree_bound'], (), last)), 'kind': 'redeclared:last_layer', 'name': b.name, 'pos': hex(last)})
     # the dynamic layout's validation is driven by 340 prover-declared parameters (row ratios, offsets, switches): each key parameter set
@@ -113,6 +120,10 @@ def cases(rng, tier, feats, drv_ok):
                         if pi['dyn'][ix[u]] == 0:
                             p2 = copy.deepcopy(p); p2['dyn'][ix[u]] = 1
                             out.append({'line': dl(p2), 'kind': 'dynamic-param', 'name': 'dynamic-public-input', 'pos': f'{n}={v:#x},{u}=1'})
+    # the model is run on every case of the fixture / recursive / dynamic bases and on a sample of the other layouts' (thorough tier)
+    for n, c in enumerate(out):
+        if c.get('name') not in ('fixture', 'dynamic-public-input') and 'recursive/' not in str(c.get('name')) and n % 40:
+            c['hxonly'] = True
     return out
 
 
